@@ -105,7 +105,7 @@ class Schema(ResolverMap):
         "implementations",
         "resolvers",
         "subscriptions",
-        "default_resolver",
+        "_default_resolver",
         "default_resolvers",
     )
 
@@ -228,6 +228,20 @@ class Schema(ResolverMap):
 
             fix_type_references(self)
             self._invalidate_and_rebuild_caches()
+
+    @property
+    def default_resolver(self) -> Optional[Resolver]:
+        """
+        Resolver used for fields that have no resolver of their own and whose
+        type does not define a default one.
+        """
+        return self._default_resolver
+
+    @default_resolver.setter
+    def default_resolver(self, resolver: Optional[Resolver]) -> None:
+        self._default_resolver = resolver
+        # Invalidate validation
+        self._is_valid = None
 
     def validate(self):
         """
